@@ -1,6 +1,7 @@
 //! Correspondence harness: generates cases, runs the real implementation in-process and writes
 //! one line per case: `op<TAB>args…<TAB>=><TAB>answer`.
 mod common;
+mod c07;
 mod c20;
 mod c18;
 mod c08;
@@ -64,6 +65,7 @@ fn main() {
             "C08" => c08::generate(&mut ctx),
             "C18" => c18::generate(&mut ctx),
             "C20" => c20::generate(&mut ctx),
+            "C07" => c07::generate(&mut ctx),
             _ => {
                 eprintln!("unknown property {prop}");
                 std::process::exit(2);
@@ -83,5 +85,5 @@ fn dispatch_replay(ctx: &mut Ctx, f: &[&str]) -> bool {
     if f.is_empty() {
         return false;
     }
-    c19::replay(ctx, f) || c09::replay(ctx, f) || c02::replay(ctx, f) || c13::replay(ctx, f) || c04::replay(ctx, f) || c05::replay(ctx, f) || c10::replay(ctx, f) || c01::replay(ctx, f) || pm::replay(ctx, f) || c12::replay(ctx, f) || c11::replay(ctx, f) || c08::replay(ctx, f) || c18::replay(ctx, f) || c20::replay(ctx, f)
+    c19::replay(ctx, f) || c09::replay(ctx, f) || c02::replay(ctx, f) || c13::replay(ctx, f) || c04::replay(ctx, f) || c05::replay(ctx, f) || c10::replay(ctx, f) || c01::replay(ctx, f) || pm::replay(ctx, f) || c12::replay(ctx, f) || c11::replay(ctx, f) || c08::replay(ctx, f) || c18::replay(ctx, f) || c20::replay(ctx, f) || c07::replay(ctx, f)
 }
